@@ -36,6 +36,7 @@ type Sched struct {
 
 	yields    int
 	maxYields int
+	noYield   int // >0 while the running task executes an Atomic section
 	pollFails int // consecutive polls of blocked tasks that found their condition false
 	aborted   bool
 	problem   string
@@ -221,11 +222,28 @@ func (s *Sched) Done(owner interface{}) bool {
 	return t == nil || t.state == tDone
 }
 
+// Atomic runs f without letting the calling task be preempted (its yield
+// points are ignored): used by the harness to make a short sequence of calls
+// indivisible with respect to the other tasks.
+//
+//go:norace
+func (s *Sched) Atomic(f func()) {
+	s.lock()
+	s.noYield++
+	s.unlock()
+	defer func() {
+		s.lock()
+		s.noYield--
+		s.unlock()
+	}()
+	f()
+}
+
 // Yield is a preemption point of the running task.
 //
 //go:norace
 func (s *Sched) Yield(point string) {
-	if s.aborted {
+	if s.aborted || s.noYield > 0 {
 		return
 	}
 	if s.Probe != nil && !s.Probe() {
